@@ -1,4 +1,6 @@
-use chrono::{DateTime, Duration, NaiveDateTime, Utc};
+use chrono::Utc;
+
+const DAY_MILLIS: i64 = 86_400_000;
 
 ///
 /// current time in milliseconds since unix epoch
@@ -10,15 +12,12 @@ pub fn now() -> i64 {
 
 //returns the date without time
 pub fn date(date_time: i64) -> i64 {
-    let date = DateTime::from_timestamp_millis(date_time).unwrap();
-    let ds: NaiveDateTime = date.date_naive().and_hms_opt(0, 0, 0).unwrap();
-    ds.and_utc().timestamp_millis()
+    //computed on the timestamp itself: the dates carried by rows received from other peers can have any value,
+    //including values that chrono cannot represent, and they must not make the writer thread panic
+    date_time.saturating_sub(date_time.rem_euclid(DAY_MILLIS))
 }
 
 //returns the next day without time
 pub fn date_next_day(date_time: i64) -> i64 {
-    let date = DateTime::from_timestamp_millis(date_time).unwrap();
-    let date = date + Duration::days(1);
-    let ds: NaiveDateTime = date.date_naive().and_hms_opt(0, 0, 0).unwrap();
-    ds.and_utc().timestamp_millis()
+    date(date_time).saturating_add(DAY_MILLIS)
 }
